@@ -39,6 +39,8 @@ vector<double> NumCalcApplicationTools::getVector(const std::string& desc)
 
   if (desc.substr(0, 3) == "seq") // Bounds specified as sequence
   {
+    if (desc.size() < 5 || desc[3] != '(' || desc[desc.size() - 1] != ')')
+      throw Exception("Unvalid sequence specification, expected 'seq(from=,to=,step=|size=)': " + desc);
     map<string, string> keyvals;
     KeyvalTools::multipleKeyvals(desc.substr(4, desc.size() - 5), keyvals);
     if (keyvals.find("from") == keyvals.end())
